@@ -22,6 +22,7 @@ META = {
     'technique': 'static analysis: abstract interpretation of the container printers, the context class and the entry point; clo'
                  'sed-use classification; who-may-call',
 }
+META['text'] += " Round 5: take / islice with an unknown count are interpreted as 'everything' or 'a cut tail' under the printers' own truncation fact, so a silent cut of keyword arguments or elements shows; type tests and range tests of the setting against constants are branch tests."
 
 CONTAINER_KEYS = {'list', 'tuple', 'set', 'dict'}
 
